@@ -6,11 +6,11 @@
    Real QListData blocks may have begin > 0 as well (after prepend/removeFirst), so the inline code is exercised faithfully. */
 #ifdef HAVE_T_struct_QListData__Data
 #ifndef LIST_CAP
-#define LIST_CAP 6
+#define LIST_CAP 3   /* C20: identities <= 2, features <= 3, form fields <= 3, values <= 2 */
 #endif
 #define LD_B 2u   /* >= (largest list handed to std::sort) - 1: the unguarded insertion loop of element k is cut after k+1 evaluations of its condition */
-#if LIST_CAP != 6
-#error ld_new initialises exactly 8 slots
+#if LIST_CAP > 6
+#error ld_new initialises at most 8 slots
 #endif
 struct ld { uint32_t ref, alloc, begin, end; char *array[LIST_CAP + LD_B]; };
 /* what unused slots point to: an object that reads as an empty model string block (size 0, hint 0, data offset QS_OFF - the same
@@ -29,7 +29,22 @@ GT__ZN9QListData11shared_nullE G__ZN9QListData11shared_nullE = { {{{{ (uint32_t)
 #define LD_N(x) ((x)->end - (x)->begin)
 static struct ld *ld_new(uint32_t n) { struct ld *t = malloc(sizeof(struct ld)); ASSUME(t != 0); ASSERT(n <= LIST_CAP, "QList capacity of the model exceeded"); t->ref = 1; t->alloc = LIST_CAP; t->begin = LD_B; t->end = LD_B + n;
   /* every slot starts out pointing to the all-zero object: no path ever reads an indeterminate pointer */
-  t->array[0] = (char*)vp_ld_zero; t->array[1] = (char*)vp_ld_zero; t->array[2] = (char*)vp_ld_zero; t->array[3] = (char*)vp_ld_zero; t->array[4] = (char*)vp_ld_zero; t->array[5] = (char*)vp_ld_zero; t->array[6] = (char*)vp_ld_zero; t->array[7] = (char*)vp_ld_zero;
+  t->array[0] = (char*)vp_ld_zero; t->array[1] = (char*)vp_ld_zero; t->array[2] = (char*)vp_ld_zero;
+#if LIST_CAP > 1
+  t->array[3] = (char*)vp_ld_zero;
+#endif
+#if LIST_CAP > 2
+  t->array[4] = (char*)vp_ld_zero;
+#endif
+#if LIST_CAP > 3
+  t->array[5] = (char*)vp_ld_zero;
+#endif
+#if LIST_CAP > 4
+  t->array[6] = (char*)vp_ld_zero;
+#endif
+#if LIST_CAP > 5
+  t->array[7] = (char*)vp_ld_zero;
+#endif
   return t; }
 void _ZN9QListData7disposeEPNS_4DataE(char *d) { /* blocks are never recycled */ }
 void _ZN9QListData7disposeEv(char *self) { }
